@@ -1,4 +1,8 @@
 import CCV.Drv.C13
+import CCV.Drv.C11
+import CCV.Drv.C15
+import CCV.Drv.C08
+import CCV.Drv.C12
 import CCV.Drv.C07
 import CCV.Drv.C10
 import CCV.Drv.C05
@@ -15,6 +19,10 @@ open CCV.Drv
 def dispatch (line : String) : String :=
   match line.trimAscii.toString.splitOn " " with
   | "C13" :: rest => C13.handle rest
+  | "C11" :: rest => C11.handle rest
+  | "C15" :: rest => C15.handle rest
+  | "C08" :: rest => C08.handle rest
+  | "C12" :: rest => C12.handle rest
   | "C07" :: rest => C07.handle rest
   | "C10" :: rest => C10.handle rest
   | "C05" :: rest => C05.handle rest
